@@ -252,10 +252,17 @@ def _long_bytes(x):
 
 
 def _dump_long_post(self, x, _old_self, _locals):
-    digits = _locals["digits"]
     ax = _absx(x)
-    n = dlen(digits)
     o = Len(_old_self.out)
+    if "digits" not in _locals:
+        # an exit that never built the digit list (a path the function does not have on the unchanged tree): the
+        # property still demands the TYPE_LONG encoding, so the obligation is stated, fails, and its counter-model is
+        # replayed against _long_bytes - never a KeyError in the checker
+        return [("exit-without-digit-list-writes-TYPE_LONG", And(Len(out_of(self)) >= o + 5, out_of(self)[o] == ord("l"),
+                                                                 shr15(ax, If(le_s(out_of(self), o + 1, 4) < 0, 0 - le_s(out_of(self), o + 1, 4), le_s(out_of(self), o + 1, 4))) == 0,
+                                                                 Len(out_of(self)) == o + 5 + 2 * If(le_s(out_of(self), o + 1, 4) < 0, 0 - le_s(out_of(self), o + 1, 4), le_s(out_of(self), o + 1, 4))))]
+    digits = _locals["digits"]
+    n = dlen(digits)
     return [
         ("digits", dseq(digits) == digseq(ax, n)),
         ("all-digits-written", shr15(ax, n) == 0),
